@@ -81,7 +81,8 @@ func (c *PublishHeader) WriteHTMLTo(w io.Writer) (int64, error) {
 	}
 
 	if c.options.ShowSurnames {
-		badge := core.NewCountBadge(getSurnames(c.document).Len())
+		badge := core.NewCountBadge(
+			getSurnames(c.document, c.options.LivingVisibility).Len())
 		item := core.NewNavItem(
 			core.NewComponents(core.NewText("Surnames "), badge),
 			c.selectedTab == selectedSurnamesTab,
@@ -125,15 +126,24 @@ func (c *PublishHeader) WriteHTMLTo(w io.Writer) (int64, error) {
 	).WriteHTMLTo(w)
 }
 
-var surnames = gedcom.NewStringSet()
+// getSurnames returns the surnames of the individuals that are visible. The
+// surnames of living individuals are not included unless they are shown.
+func getSurnames(document *gedcom.Document, visibility LivingVisibility) *gedcom.StringSet {
+	surnames := gedcom.NewStringSet()
 
-func getSurnames(document *gedcom.Document) *gedcom.StringSet {
-	if surnames.Len() == 0 {
-		for _, individual := range document.Individuals() {
-			surname := individual.Name().Surname()
-			if surname != "" {
-				surnames.Add(surname)
+	for _, individual := range document.Individuals() {
+		if individual.IsLiving() {
+			switch visibility {
+			case LivingVisibilityHide, LivingVisibilityPlaceholder:
+				continue
+
+			case LivingVisibilityShow:
 			}
+		}
+
+		surname := individual.Name().Surname()
+		if surname != "" {
+			surnames.Add(surname)
 		}
 	}
 
